@@ -80,6 +80,7 @@ class Network:
         self.held = []  # entries withheld by the interceptor ('hold'): (entry, headers)
         self.pre_handle = None
         self.post_handle = None
+        self.response_rewriter = None  # callable(entry, response bytes) -> bytes: the peer answers something equivalent
         self._lock = threading.RLock()
         self._port = 40000
         self.validator = None  # optional callable(bytes, what) -> list[str]; set by checks that validate the wire
@@ -151,6 +152,8 @@ class Network:
             self.post_handle(entry)  # ... or after the answer was computed, before the requester sees it
         if isinstance(response, str):
             response = response.encode('utf-8')
+        if self.response_rewriter is not None and response:
+            response = self.response_rewriter(entry, response)
         entry.status = status
         entry.response = response
         if self.validator is not None and response:
